@@ -118,7 +118,7 @@ def run_job(job, rep):
             rep.ob(st, "recv-ft-bit", case if mm is None else dict(kind="recv", raw=raw.concrete(mm).hex()), "FT bit after re-serialisation")
             rep.sample(dict(kind="recv", L=L, witness=case["raw"], service=svc), limit=1)
 
-        _, st = core.explore(run, on_path=judge, timeout=2400)
+        _, st = core.explore(run, on_path=judge, stop=rep.enough, timeout=2400)
         rep.add_stats(st)
         return
 
@@ -228,7 +228,7 @@ def run_job(job, rep):
             rep.sample(dict(job=job["name"], tpci=tname, witness={k: v for k, v in case.items() if k != "val"}), limit=1)
 
         first = [True]
-        _, st = core.explore(run, on_path=judge, timeout=1200)
+        _, st = core.explore(run, on_path=judge, stop=rep.enough, timeout=1200)
         rep.add_stats(st)
     if kind == "built" and not rep.functions:
         pass
